@@ -173,6 +173,38 @@ CHECKS = {
             "blocks mined during the outage are the history's own next blocks, and only those without penalties (whose presence in a block would depend on what the tower had broadcast)",
         ],
     },
+    "C15": {
+        "engines": lambda tier: [{"engine": "e5c15", "shards": 16, "args": {"requests": 20000 if tier == "thorough" else 1200}}],
+        "level": "exploration",
+        "rule": "case = one HTTP/1.1 request sent over a raw socket to the real warp router (teos::api::http::serve on loopback) in front of the real InternalAPI over an "
+                "E1 tower: per endpoint a valid request, or a structured mutation of one (drop / retype / empty / resize every field, non-hex characters, appointment "
+                "sub-fields dropped / emptied / negative / huge, null appointment, nested JSON up to 65 levels, arrays / strings / numbers instead of the object), raw "
+                "bytes, bodies padded to the size limit -1/0/+1, oversized bodies, every other method, unknown paths, missing content type; 5 of every 40 requests are "
+                "sent while the tower believes bitcoind is unreachable. Oracle per request: an answer arrives; status is 200, 4xx or 503; for (existing endpoint, POST, "
+                "acceptable size, JSON content type) a non-200 body is a JSON object {error, error_code} with a documented code and never 255, a 200 body carries "
+                "the documented reply fields (registration receipts are verified); requests malformed by construction are never answered 200, valid registrations "
+                "always are; every non-200 leaves the sqlite content unchanged; no 200 while unreachable; panic hook silent. distinct = distinct (method, path, body).",
+        "assumptions": [
+            "every request carries a correct Content-Length and either Content-Type: application/json or none: header games (wrong length, other media types) are outside the stated quantifier",
+            "requests are sent one at a time on fresh connections",
+            "semantic correctness of 200 replies beyond shape / receipt validity is the business of C01-C09",
+        ],
+    },
+    "C16": {
+        "engines": lambda tier: [{"engine": "e5c16", "shards": 16, "args": {"messages": 2500 if tier == "thorough" else 120}}],
+        "level": "exploration",
+        "rule": "case = one message exchange through the real router between the plugin's real client code (register, send_appointment, post_request + "
+                "process_post_response for get_appointment / get_subscription_info) and a recording, scripted PublicTowerServices stub: generated request values "
+                "(random ids / locators, blobs of 0..850 bytes, to_self_delay and all numbers at u32 boundaries, signature strings incl. unicode, quotes, escapes, "
+                "control characters, trimmed to the endpoint's size limit) must be recorded by the stub field for field; scripted replies (all reply types, both "
+                "AppointmentData variants, the three statuses, error statuses of every documented kind) must be parsed by the client into exactly the generated "
+                "values (error codes included). Plus, per case: the three signed layouts re-parsed independently and shown injective under byte shifting, and "
+                "serde_json serialise+parse identity for all 9 message shapes. distinct = distinct generated messages.",
+        "assumptions": [
+            "requests larger than the tower's per-endpoint body limit are outside the property and not generated",
+            "GetAppointmentResponse.status is one of the three defined statuses (others are not representable on the wire)",
+        ],
+    },
     "C17": {
         "engines": _c17,
         "level": "exploration",
